@@ -3,3 +3,4 @@ pub mod canon;
 pub mod external;
 pub mod xmap;
 pub mod xjson;
+pub mod domindex;
